@@ -11,7 +11,7 @@ claims = json.load(open(os.path.join(V, "tools", "claims.json")))
 C = claims["claimed"]
 m = {
     "version": 1,
-    "setup_cmd": "cd /verif/coq && coq_makefile -f _CoqProject -o Makefile && timeout 5000 make -j16",
+    "setup_cmd": "/verif/tools/setup.sh",
     "hooks": {
         "guard": "ESUTIL_VERIF",
         "enable": "no hooks are needed: every check builds /repo's working tree unmodified in a scratch directory "
